@@ -483,9 +483,9 @@ func c05(r *ev.Run, replay string) {
 	selC, selS := baseSelector{max: 2048}, baseSelector{max: 2048}
 	corpus.Controller(false, func() bool { return false }, func(string, bool) {}, selC.offer)
 	corpus.Switch(false, func() bool { return false }, func(string, bool) {}, selS.offer)
-	vbases := append(append(append(c04Bases(), c05ControllerBases()...), selC.bases...), selS.bases...)
-	r.Set("variation_bases", len(vbases))
-	for _, base := range vbases {
+	hand := append(c04Bases(), c05ControllerBases()...)
+	r.Set("variation_bases", len(hand)+len(selC.bases)+len(selS.bases))
+	for _, base := range hand {
 		if r.Expired() {
 			r.Incomplete("V1 single-field value alphabets on messages")
 			break
@@ -495,8 +495,13 @@ func c05(r *ev.Run, replay string) {
 			c05Msg(r, t, ", varied "+what)
 		})
 	}
-	if !r.Expired() {
-		r.Completed("V1 every scalar / fixed-width field of one base message per kind varied alone over its value alphabet")
+	n1, ok1 := selC.vary(r.Seed, r.Expired, func(t *wire.N, what string) { c05Msg(r, t, ", varied "+what) })
+	n2, ok2 := selS.vary(r.Seed, r.Expired, func(t *wire.N, what string) { c05Msg(r, t, ", varied "+what) })
+	nvar += n1 + n2
+	if ok1 && ok2 && !r.Expired() {
+		r.Completed(fmt.Sprintf("V1 every scalar / fixed-width field (match-field values and masks included) varied alone over its value alphabet: all fields of %d hand-picked base messages, and each (root kind, element kind, field) of both corpora in the first of %d messages that shows it", len(hand), len(selC.bases)+len(selS.bases)))
+	} else {
+		r.Incomplete("V1 single-field value alphabets on messages")
 	}
 	recs := c05Records(r)
 	r.Completed("R1 every stats record and request body type (desc, aggregate, table, port, queue, flow stats; flow/aggregate/port/queue requests; port description) with pattern values: alone, followed, and 1..3 inside a multipart message through Parse")
